@@ -77,7 +77,8 @@ K = 6   # nodes per token proved sufficient (node budget); the capacity formula 
 def expand_static_contracts(u):
     import os
     src = open(os.path.join(u.verif, 'contracts/u_parse.vc')).read()
-    src = re.sub(r'PBFRAME\((\w+)\)', lambda m: PBFRAME % ((m.group(1),) * 6), src)
+    src = re.sub(r'PBFRAME0\((\w+)\)', lambda m: PBFRAME % ((m.group(1),) * 6), src)
+    src = re.sub(r'PBFRAME\((\w+)\)', lambda m: (PBFRAME % ((m.group(1),) * 6)) + '\n\tdecls_same(*old(%s), *final(%s)),' % (m.group(1), m.group(1)), src)
     src = src.replace('NODES_PER_TOKEN()', str(K))
     out = os.path.join(u.verif, '.work', 'u_parse_static.vc')
     os.makedirs(os.path.dirname(out), exist_ok=True)
@@ -85,8 +86,149 @@ def expand_static_contracts(u):
     u.load_contracts('.work/u_parse_static.vc')
 
 
+
+# ------------------------------------------------------------------------------------------------------------------
+# Uniform contracts of the parse_* functions (generated into .work/u_parse_generated.vc on every run).
+#   c        the function's constant in  "nodes pushed <= K * tokens consumed + c"   (Ok and Err alike)
+#   progress the function consumes at least one token (needed for termination of the callers' loops)
+#   unres    called only on an unreserved cursor (it opens a reservation itself or calls such a function)
+#   recent   on Ok the returned node is the most recent node (Tokens::expect_most_recent_node's debug_assert)
+#   loops    per loop ordinal: constant c of the loop invariant and extra invariant conjuncts
+#   lists    ActiveList variables that are live across a loop (placeholder invariant)
+# ------------------------------------------------------------------------------------------------------------------
+RANK_ORDER = ['parse_declaration', 'parse_function_declaration', 'parse_constant_declaration', 'parse_word_declaration',
+              'parse_struct_declaration', 'parse_import_declaration', 'parse_struct_members', 'parse_rest_of_function_signature',
+              'parse_member', 'parse_parameter', 'parse_function_body', 'parse_rest_of_block', 'parse_then', 'parse_statement',
+              'parse_comparison', 'parse_rest_of_arguments', 'parse_rest_of_structural', 'parse_expression', 'parse_addition',
+              'parse_rest_of_bitwise_expression', 'parse_rest_of_bitshift_operation', 'parse_multiplication',
+              'parse_singular_expression', 'parse_unary_expression', 'parse_primary_expression', 'parse_reference',
+              'parse_deref_steps_list', 'parse_type', 'parse_inner_type']
+UNRES = {'parse_statement', 'parse_then', 'parse_rest_of_block', 'parse_function_body', 'parse_function_declaration', 'parse_declaration'}
+NO_PROGRESS = {'parse_deref_steps_list'}
+STRICT = {'parse_addition', 'parse_multiplication', 'parse_singular_expression', 'parse_rest_of_bitwise_expression', 'parse_struct_members',
+          'parse_rest_of_function_signature', 'parse_function_body', 'parse_primary_expression', 'parse_statement'}
+TABLE = {
+    'parse_declaration': dict(c=0, recent=False),
+    'parse_import_declaration': dict(c=0),
+    'parse_constant_declaration': dict(c=0),
+    'parse_word_declaration': dict(c=0, req=['declaring_token is Word8 || declaring_token is Word16 || declaring_token is Word32 || declaring_token is Word64 || declaring_token is Word128,']),
+    'parse_struct_declaration': dict(c=0),
+    'parse_struct_members': dict(c=1, recent=False, loops={0: dict(c=0, lists=['list'])}),
+    'parse_function_declaration': dict(c=0, recent=False),
+    'parse_rest_of_function_signature': dict(c=2 - K, recent='pair1', loops={0: dict(c=-K, lists=['list'])}),
+    'parse_member': dict(c=0),
+    'parse_parameter': dict(c=0),
+    'parse_type': dict(c=0),
+    'parse_inner_type': dict(c=0, ens=['[C15.parse.parse_inner_type.one_node_per_token] final(buffer).num_nodes - old(buffer).num_nodes <= pos(*final(tokens)) - pos(*old(tokens)),']),
+    'parse_function_body': dict(c=1 - K, recent='optpair', loops={0: dict(c=-K, lists=['list'])}),
+    'parse_rest_of_block': dict(c=0, recent=False, loops={0: dict(c=0, lists=['list'])}),
+    'parse_statement': dict(c=-1, loops={0: dict(c=0, extra=['1 <= depth <= 127,'])}, inserts=[
+        ('before', 0, 'let r9_result = parse_comparison(&mut r9_tokens, buffer);',
+         '\t\t\t\tlet ghost r9_lim = lim(r9_tokens); let ghost r9_p0 = pos(r9_tokens);'),
+        ('before', 0, 'tokens.release(r9_tokens);', '\t\t\t\tlet ghost r9_t1 = r9_tokens;'),
+        ('after', 0, 'tokens.release(r9_tokens);',
+         '\t\t\t\tproof {\n\t\t\t\t\tif r9_result is Ok { lemma_clean_widen(toks(t0), r9_lim, lim(t0), r9_p0, pos(r9_t1)); }\n'
+         '\t\t\t\t\tlemma_clean_widen(toks(t0), r9_lim, lim(t0), r9_p0, pos(r9_t1) - 1);\n\t\t\t\t}'),
+    ]),
+    'parse_rest_of_arguments': dict(c=1, recent=False, loops={0: dict(c=0, lists=['list'], brk=['pos(*tokens) > pos(t0),'])}),
+    'parse_rest_of_structural': dict(c=1, recent=False, loops={0: dict(c=0, lists=['list'], brk=['pos(*tokens) > pos(t0),'])}),
+    'parse_then': dict(c=0),
+    'parse_comparison': dict(c=0),
+    'parse_expression': dict(c=0),
+    'parse_addition': dict(c=0, loops={0: dict(c=0, extra=['recent(*buffer, expression),'])}),
+    'parse_rest_of_bitwise_expression': dict(c=0, loops={0: dict(c=-3, extra=['op_token == BaseToken::Ampersand || op_token == BaseToken::Pipe || op_token == BaseToken::Caret,'])}),
+    'parse_rest_of_bitshift_operation': dict(c=0),
+    'parse_multiplication': dict(c=0, loops={0: dict(c=0, extra=['recent(*buffer, expression),'])}),
+    'parse_singular_expression': dict(c=0, loops={0: dict(c=0, extra=['recent(*buffer, expression),'])}),
+    'parse_unary_expression': dict(c=0),
+    'parse_primary_expression': dict(c=0, loops={0: dict(c=0, extra=['token == BaseToken::StringLiteral,']), 1: dict(c=0, extra=['1 <= depth <= 127,']),
+                                                  2: dict(c=-K, lists=['list'], extra=['num_elements <= pos(*tokens) - pos(t0),'])}),
+    'parse_reference': dict(c=0, loops={0: dict(c=0, extra=['1 <= address_depth <= 127,'])}),
+    'parse_deref_steps_list': dict(c=1, recent=False, loops={0: dict(c=0, lists=['list'])}),
+}
+PROPH_FN = ('final(final(buffer).nodes)@ == final(old(buffer).nodes)@ && final(final(buffer).declarations)@ == final(old(buffer).declarations)@,')
+PROPH_LOOP = ('final(buffer.nodes)@ == final(old(buffer).nodes)@ && final(buffer.declarations)@ == final(old(buffer).declarations)@,')
+
+
+def gen_parse_contracts(u):
+    import os
+    src = u.source(P)
+    out = ['## GENERATED by units/u_parse.py from TABLE on every run - do not edit']
+    for it in src.items:
+        if it.kind != 'fn' or it.name not in TABLE:
+            continue
+        n = it.name
+        d = TABLE[n]
+        rank = 100 - RANK_ORDER.index(n)
+        rec = d.get('recent', True)
+        out.append('=== fn fn %s' % n)
+        out.append('ret r')
+        out.append('requires')
+        out.append('\t[C15.parse.entry_condition] pre(*old(tokens), *old(buffer)),')
+        if n in UNRES:
+            out.append('\t[C15.parse.cursor_unreserved] unreserved(*old(tokens)),')
+        for q in d.get('req', []):
+            out.append('\t' + q)
+        out.append('ensures')
+        out.append('\t[C15.parse.%s.exit_condition_and_node_budget] post(*old(tokens), *old(buffer), *final(tokens), *final(buffer), %d),' % (n, d['c']))
+        out.append('\t[C15.parse.%s.ok_leaves_cursor_live] r is Ok ==> post_ok(*old(tokens), *final(tokens)),' % n)
+        if n not in NO_PROGRESS:
+            out.append('\t[C15.parse.%s.progress] pos(*final(tokens)) > pos(*old(tokens)),' % n)
+        if rec is True:
+            out.append('\t[C15.parse.%s.returns_most_recent_node] r is Ok ==> recent(*final(buffer), r->Ok_0),' % n)
+        elif rec == 'pair1':
+            out.append('\t[C15.parse.%s.returns_most_recent_node] r is Ok ==> recent(*final(buffer), r->Ok_0.1) && u24v(r->Ok_0.0.0) < final(buffer).num_nodes,' % n)
+        elif rec == 'optpair':
+            out.append('\t[C15.parse.%s.returns_most_recent_node] r is Ok ==> u24v(r->Ok_0.0.0) < final(buffer).num_nodes && (r->Ok_0.1 is Some ==> recent(*final(buffer), r->Ok_0.1->0)),' % n)
+        else:
+            out.append('\t[C15.parse.%s.returns_existing_node] r is Ok ==> u24v(r->Ok_0.0) < final(buffer).num_nodes,' % n)
+        for e in d.get('ens', []):
+            out.append('\t' + e)
+        out.append('\tdecls_same(*old(buffer), *final(buffer)),')
+        out.append('\t' + PROPH_FN)
+        out.append('decreases rem(*old(tokens)), %dint' % rank)
+        out.append('--- body_prefix')
+        out.append('\tlet ghost t0 = *tokens; let ghost b0 = *buffer;')
+        head, ret, where, body = __import__('vlib.rsparse', fromlist=['x']).fn_signature_split(it.text)
+        loops = __import__('vlib.rsparse', fromlist=['x']).find_loops(body)
+        for k, (kw, hdr, bo) in enumerate(loops):
+            ld = d.get('loops', {}).get(k, dict(c=0))
+            out.append('--- loop %d | %s' % (k, hdr))
+            inv = ['t0 == *old(tokens), b0 == *old(buffer), linv(t0, b0, *tokens, *buffer, %d),' % ld.get('c', 0)]
+            if n in UNRES:
+                inv.append('unreserved(*tokens),')
+            for l in ld.get('lists', []):
+                inv.append('list_in(b0, *buffer, %s),' % l)
+            inv += ld.get('extra', [])
+            if n in STRICT:
+                inv.append('pos(*tokens) > pos(t0),')
+            inv.append('decls_same(b0, *buffer),')
+            inv.append(PROPH_LOOP)
+            if 'brk' in ld:
+                # the loop is left only through `break`: what holds there is stated as the loop's ensures
+                out.append('invariant_except_break')
+                out += ['\t' + x for x in inv]
+                out.append('ensures')
+                out += ['\t' + x for x in inv + ld['brk']]
+            else:
+                out.append('invariant')
+                out += ['\t' + x for x in inv]
+            if not hdr.startswith('for '):
+                out.append('decreases rem(*tokens)')
+        for (w, nth, anchor, text) in d.get('inserts', []):
+            out.append('--- %s %d | %s' % (w, nth, anchor))
+            out.append(text)
+        out.append('')
+    path = os.path.join(u.verif, '.work', 'u_parse_generated.vc')
+    open(path, 'w').write('\n'.join(out))
+    u.load_contracts('.work/u_parse_generated.vc')
+
+
 def build(u):
     expand_static_contracts(u)
+    import os as _o
+    if _o.environ.get('U_PARSE_STAGE', '') != 'B':
+        gen_parse_contracts(u)
     emit_nodes(u, convert=False)
     u.include('prelude/usize_minmax.rs')
     u.include('prelude/parse_strum.rs')
@@ -120,7 +262,10 @@ def build(u):
     u.emit(PT, 'struct UnfinishedImpl', pub_fields=True)
     u.emit(CT, 'struct Tokens', pub_fields=True)
     u.raw('use ParseNode::UnpatchedListItem;\nuse BaseToken::EndOfSource;')
-    u.include('spec/u_parse_spec.rs', kind='spec')
+    import os as _os
+    _sp = open(_os.path.join(u.verif, 'spec/u_parse_spec.rs')).read().replace('KKK', str(K))
+    open(_os.path.join(u.verif, '.work', 'u_parse_spec_k.rs'), 'w').write(_sp)
+    u.include('.work/u_parse_spec_k.rs', kind='spec')
     # ---- node buffer (real code)
     RB = [rules.r13_assert_eq, rules.r19_with_capacity, rules.r21_cmp_minmax, rules.r20_param_patterns, rules.r23_push_within_capacity('self.declarations')]
     u.emit(PT, 'impl ParseTree #0', rules=RB, pre=lambda t: t.replace('tokens: &Tokens,', 'tokens: &lexer::tokens::Tokens,'))
